@@ -13,7 +13,7 @@ from . import core
 from .model import load_model
 
 PROPS = ['C01', 'C02', 'C03', 'C04', 'C05', 'C06', 'C07', 'C08', 'C09',
-         'C10', 'C11', 'C12', 'C13', 'C14', 'C15', 'C17', 'C18', 'C19',
+         'C10', 'C11', 'C12', 'C13', 'C14', 'C15', 'C16', 'C17', 'C18', 'C19',
          'C20']
 
 
